@@ -25,8 +25,16 @@ type c13Pool struct {
 
 var c13Names = []string{"P0", "P1", "M0", "P2", "M1", "M2", "M3"}
 
+// c13Decor is a Node implementation that is not built by embedding ast.BaseNode: a decorator that embeds the Node
+// interface of another node and overrides its kind (the statement speaks of "any nodes").
+type c13Decor struct{ ast.Node }
+
+var c13DecorKind = ast.NewNodeKind("C13Decorated")
+
+func (d *c13Decor) Kind() ast.NodeKind { return c13DecorKind }
+
 func newC13Pool(n int) *c13Pool {
-	all := []ast.Node{ast.NewParagraph(), ast.NewBlockquote(), ast.NewEmphasis(1), ast.NewListItem(0), ast.NewText(), ast.NewCodeSpan(), ast.NewString([]byte("s"))}
+	all := []ast.Node{ast.NewParagraph(), ast.NewBlockquote(), ast.NewEmphasis(1), ast.NewListItem(0), ast.NewText(), &c13Decor{ast.NewCodeSpan()}, ast.NewString([]byte("s"))}
 	p := &c13Pool{nodes: all[:n], id: map[ast.Node]int{}}
 	for i, x := range p.nodes {
 		p.id[x] = i
